@@ -1,0 +1,22 @@
+//go:build verif
+
+package netmap
+
+// Machine-checked contracts (govc, see /verif/DESIGN.md). Comment-only file.
+
+//@ fileprops C38
+
+// ---- C38 (admission): the node descriptor the validators judge is built from the candidate
+// as it is in the request. Its state is an arbitrary-precision integer there: it becomes ONLINE
+// or MAINTENANCE only when the whole number equals the respective constant - compared as a
+// big integer, so that a value which merely agrees with a constant in its low 64 bits is an
+// unsupported state.
+//@ ghost pred stateEqualsAKnownConstant() bool
+//@ callrule c38_state_compared_as_a_whole in Node2Info, Candidate2Info
+//@   callee (*big.Int).Cmp
+//@   pureeffect
+//@   defines result == 0 ==> stateEqualsAKnownConstant()
+//@ func Node2Info
+//@   ensures [accepted_state_is_one_of_the_known_constants] err == nil ==> stateEqualsAKnownConstant()
+//@ func Candidate2Info
+//@   ensures [accepted_state_is_one_of_the_known_constants] err == nil ==> stateEqualsAKnownConstant()
